@@ -33,6 +33,8 @@ template<> struct Elem<Pod24> {
         return p;
     }
     static int64_t val(const Pod24 &p) {
+        static const Pod24 zero{};
+        if (memcmp(&p, &zero, sizeof p) == 0) return INT64_MIN + 7;   // a value-initialised element, distinct from garbage
         if (p.b != (int32_t) ((uint64_t) p.a * 3 + 1)) return INT64_MIN + 1;   // (unsigned: garbage must not overflow here)
         for (int i = 0; i < 12; ++i) if (p.c[i] != (char) (p.a + i)) return INT64_MIN + 2;
         return p.a;
